@@ -283,6 +283,34 @@ func workerE1(shard, nshards int) {
 			}
 		}
 	}
+	if shard == 0 {
+		// a peer that announces far more than it sends but does send more than the entry points
+		// reserve up front (1 MiB): what is allocated stays in proportion to what arrived
+		const delivered = 1<<20 + 16
+		for _, ep := range eps {
+			if ep.header {
+				continue
+			}
+			for _, announced := range []uint64{1 << 21, 1 << 28, 1 << 33, 1 << 40, 1 << 62} {
+				for _, b1 := range []byte{0x7f, 0xff} {
+					data := frameCase(0x82, b1, announced, delivered)
+					n++
+					runtime.GC()
+					runtime.ReadMemStats(&ms)
+					before := ms.TotalAlloc
+					sig, detail := judgeRun(ep, data, 0)
+					runtime.ReadMemStats(&ms)
+					cs := fmt.Sprintf("frame %x.. announcing %d bytes, %d delivered, then the stream ends", data[:10], announced, delivered)
+					if d := ms.TotalAlloc - before; d > 48<<20 {
+						report("allocates-by-announced-length:"+ep.name, cs, fmt.Sprintf("%d bytes allocated for %d bytes received", d, delivered))
+					}
+					if sig != "" {
+						report(sig, cs, detail)
+					}
+				}
+			}
+		}
+	}
 	fmt.Fprintf(out, "DONE %d\n", n)
 }
 
